@@ -4,6 +4,7 @@ PROPERTY_GROUPS = {
     'C02': ['rep', 'mp4'],
     'C03': ['mp4', 'rep'],
     'C04': ['mp4'],
+    'C05': ['xml'],
     'C06': ['rep', 'timing', 'dt', 'load', 'httprange'],
     'C08': ['timing'],
     'C09': ['timing', 'rep', 'dt'],
